@@ -169,9 +169,11 @@ func init() {
 		return e.callClosure(a[1].(VFunc), nil)
 	}
 	intrinsics["errors.Is"] = func(e *Exec, a []Value) Value {
-		return VBool{e.ifaceEq(a[0].(VIface), a[1].(VIface))}
+		return VBool{e.errorsIs(a[0].(VIface), a[1].(VIface))}
 	}
-	intrinsics["errors.As"] = func(e *Exec, a []Value) Value { return VBool{BoolC(false)} }
+	intrinsics["errors.As"] = func(e *Exec, a []Value) Value {
+		return VBool{BoolC(e.errorsAs(a[0].(VIface), a[1].(VIface)))}
+	}
 }
 
 var onceDone = map[*Cell]bool{}
